@@ -344,6 +344,10 @@ def instances(tier):
         # (values chosen so that float64 evaluates them exactly: constants are computed natively)
         out.append({'func': 'h_poly', 'params': {'n': [2, 2], 'power': -1, 'scalar_shift': kind, 'int_shift': [1, 1]}})
         out.append({'func': 'h_poly', 'params': {'n': [1, 1], 'power': 3, 'scalar_shift': kind, 'int_shift': [2 ** 31, -2 ** 22]}})
+        # power 0 with a base that vanishes at one index (0^0 = 1: the tensor is the constant scale * d)
+        out.append({'func': 'h_poly', 'params': {'n': [2, 3], 'power': 0, 'scalar_shift': kind, 'int_shift': [0, -2]}})
+    out.append({'func': 'h_poly', 'params': {'n': [2, 2], 'power': 0, 'scalar_shift': 0.}})
+    out.append({'func': 'h_poly', 'params': {'n': [2, 2], 'power': 0, 'scalar_shift': None}})
     out.append({'func': 'h_concrete_delta_large_q', 'params': {}, 'opts': {'concrete_only': True}})
     for kind in ('rand', 'rand_norm', 'rand_stab'):
         # (ranks above the mode sizes / above what the unfoldings support are requested profiles like any other)
